@@ -477,7 +477,10 @@ func regJudgeInvariants(r *h.Report, done []string, subs, binds []regEntry) {
 
 // ---------------------------------------------------------------- one history
 
-type regStats struct{ subOk, subAll, bindOk, bindAll, delOk, delAll, fanNon, fanAll, faults int }
+type regStats struct {
+	subOk, subAll, bindOk, bindAll, delOk, delAll, fanNon, fanAll, faults int
+	wrOk, wrAll, vOk, vAll, fireOk, fireAll                               int // composed world only
+}
 
 // runRegHistory executes ops on a fresh world. d == nil: monitor only (probe phase).
 // ops[0] = "peers N".
@@ -497,6 +500,7 @@ func runRegHistoryTd(r *h.Report, d *h.Driver, ev *regEvents, base int, ops []st
 	w := newRegWorldTd(np, ev, base, td)
 	defer w.close()
 	if w.td != nil {
+		w.td.gen = st
 		defer w.td.close()
 	}
 	if d != nil {
@@ -507,6 +511,8 @@ func runRegHistoryTd(r *h.Report, d *h.Driver, ev *regEvents, base int, ops []st
 		}
 	}
 	done := []string{ops[0]}
+	canonImpl := map[string]map[string]int{"subs": {}, "binds": {}}
+	canonModel := map[string]map[string]int{"subs": {}, "binds": {}}
 	for _, op := range ops[1:] {
 		f := strings.Fields(op)
 		if len(f) == 0 {
@@ -559,7 +565,7 @@ func runRegHistoryTd(r *h.Report, d *h.Driver, ev *regEvents, base int, ops []st
 					r.SpecFail("C08/subscribe-touches-bindings", done, op)
 				}
 				st.subAll++
-				st.subOk += h.B2i(impl == "ok")
+				st.subOk += h.B2i(exp) // floors measure the generator: what the SPEC says should happen
 				kind = "sub:" + impl
 			} else {
 				bound := false
@@ -583,7 +589,7 @@ func runRegHistoryTd(r *h.Report, d *h.Driver, ev *regEvents, base int, ops []st
 					r.SpecFail("C09/bind-touches-subscriptions", done, op)
 				}
 				st.bindAll++
-				st.bindOk += h.B2i(impl == "ok")
+				st.bindOk += h.B2i(exp)
 				kind = "bind:" + impl
 			}
 			evs := w.ev.take()
@@ -638,7 +644,7 @@ func runRegHistoryTd(r *h.Report, d *h.Driver, ev *regEvents, base int, ops []st
 			w.ev.take()
 			regJudgeInvariants(r, done, postS, postB)
 			st.delAll++
-			st.delOk += h.B2i(impl == "ok")
+			st.delOk += h.B2i(exists)
 			kind = f[0] + ":" + impl
 		case "drop", "dropent":
 			p := atoi(1)
@@ -843,7 +849,7 @@ func runRegHistoryTd(r *h.Report, d *h.Driver, ev *regEvents, base int, ops []st
 			}
 			w.ev.take()
 			st.fanAll++
-			st.fanNon += h.B2i(len(ts) > 0)
+			st.fanNon += h.B2i(len(want) > 0)
 			kind = f[0]
 			if len(ts) > 0 {
 				kind += ":fanout"
@@ -852,7 +858,7 @@ func runRegHistoryTd(r *h.Report, d *h.Driver, ev *regEvents, base int, ops []st
 			if w.td == nil {
 				panic("bad op " + op)
 			}
-			impl, kind = w.td.step(r, done, f, preS)
+			impl, kind = w.td.step(r, done, f, preS, preB)
 			postS, postB := w.snapshot()
 			if len(regDiff(preS, postS))+len(regDiff(postS, preS))+len(regDiff(preB, postB))+len(regDiff(postB, preB)) > 0 {
 				r.SpecFail("C10/registry-changed-by-"+f[0], done, fmt.Sprintf("%s changed the registries: %s | %s -> %s | %s", op, regShow(preS), regShow(preB), regShow(postS), regShow(postB)))
@@ -874,6 +880,11 @@ func runRegHistoryTd(r *h.Report, d *h.Driver, ev *regEvents, base int, ops []st
 		r.Eval(kind, "")
 		if d != nil {
 			want := d.Ask(op)
+			if f[0] == "subs" || f[0] == "binds" {
+				// the property fixes that ids are pairwise distinct (monitored), not their values: a repair may draw
+				// the id before or after a check. Ids are compared by order of first appearance.
+				impl, want = regCanonIDs(impl, canonImpl[f[0]]), regCanonIDs(want, canonModel[f[0]])
+			}
 			if impl != want {
 				r.Mismatch(done, impl, want, "registry op "+op)
 				return false
@@ -882,6 +893,25 @@ func runRegHistoryTd(r *h.Report, d *h.Driver, ev *regEvents, base int, ops []st
 	}
 	r.Traces++
 	return false
+}
+
+// regCanonIDs renumbers the ids of a list "id:entry,id:entry" by order of first appearance in this history.
+func regCanonIDs(list string, seen map[string]int) string {
+	if list == "." || list == "" {
+		return list
+	}
+	parts := strings.Split(list, ",")
+	for i, e := range parts {
+		k := strings.Index(e, ":")
+		if k < 0 {
+			continue
+		}
+		if _, ok := seen[e[:k]]; !ok {
+			seen[e[:k]] = len(seen) + 1
+		}
+		parts[i] = fmt.Sprintf("#%d%s", seen[e[:k]], e[k:])
+	}
+	return strings.Join(parts, ",")
 }
 
 // ---------------------------------------------------------------- generation
@@ -1065,16 +1095,32 @@ func TestRegistry(t *testing.T) {
 			run(ops)
 		}
 	}
-	r.Floor("granted subscriptions", st.subOk, st.subAll, 0.10)
-	r.Floor("granted bindings", st.bindOk, st.bindAll, 0.06)
-	r.Floor("successful deletes", st.delOk, st.delAll, 0.04)
-	r.Floor("non-empty fan-outs", st.fanNon, st.fanAll, 0.05)
+	if regClean(r, regKnownKeys) {
+		r.Floor("subscription requests the SPEC grants", st.subOk, st.subAll, 0.10)
+		r.Floor("binding requests the SPEC grants", st.bindOk, st.bindAll, 0.06)
+		r.Floor("delete requests that address an existing entry", st.delOk, st.delAll, 0.04)
+		r.Floor("data changes with subscribers", st.fanNon, st.fanAll, 0.05)
+	}
 	r.Info["faults_executed"] = st.faults
 	regShrinkReport(r, func(q *h.Report, ops []string) { runRegHistory(q, d, ev, base, ops, &regStats{}) }, regKnownKeys, true)
 }
 
 var regKnownKeys = map[string]bool{"C08/delete-by-named-device": true, "C09/delete-by-named-device": true, "C09/unbind-removes-other-binding": true,
 	"C10/teardown-removes-other-peers-binding": true}
+
+// regClean: no mismatch and no spec failure beyond the corpus keys. Generator floors are only meaningful then: a
+// broken implementation (which is reported as a violation anyway) also starves the success paths.
+func regClean(r *h.Report, corpus map[string]bool) bool {
+	if r.MismatchN > 0 {
+		return false
+	}
+	for _, k := range r.SpecFailKeys() {
+		if !corpus[k] {
+			return false
+		}
+	}
+	return true
+}
 
 // regShrinkReport minimises the witnesses of spec failures that are not among the corpus keys and of the first mismatch.
 func regShrinkReport(r *h.Report, rerun func(q *h.Report, ops []string), skip map[string]bool, header bool) {
